@@ -39,6 +39,8 @@ def product_on_state(s, sidx, text='hostile'):
 
 def run(s):
     K.suite_workload(s)
+    K.pair_histories(s)
+    K.resend_after_reorder(s, 4 if s.tier == 'quick' else 5)
     n_states, n_hist = (24, 200) if s.tier == 'quick' else (600, 5000)
     for i in range(n_states):
         if s.mine(i):
